@@ -437,4 +437,7 @@ def strip_exec(h):
         ops.append({k: v for k, v in s["op"].items() if k not in ("now", "cutoff", "size", "err", "stamp", "r8")})
     if not h.get("steps"):
         ops = h["ops"]
-    return {"k": h.get("k", 0), "names": h["names"], "nrec": h.get("nrec", 3), "ops": ops}
+    out = {"k": h.get("k", 0), "names": h["names"], "nrec": h.get("nrec", 3), "ops": ops}
+    if h.get("tz"):
+        out["tz"] = h["tz"]          # the zone the history is executed in (zone slice of C06)
+    return out
